@@ -5,6 +5,7 @@
 //! stdout: the Lean module (default `Src`); stderr: a JSON object with one entry per target.
 //! With `--out-dir`, every module is also written to `DIR/<module>.lean`.
 
+mod cfgres;
 mod config;
 mod doc;
 mod sha256;
@@ -134,6 +135,7 @@ fn translate_one(
     t: &Target,
     done: &BTreeMap<String, FnSig>,
     failed: &BTreeMap<String, String>,
+    cfg_features: &Option<Vec<String>>,
 ) -> (Outcome, Option<FnSig>) {
     let rust = match t.imp {
         Some(i) => format!("{}::{}::{}", t.file, i, t.func),
@@ -177,7 +179,7 @@ fn translate_one(
         plain_res: false,
         uses_t: false,
         uses_l: false,
-        features: config::features_of(t.lean),
+        features: cfg_features.clone().unwrap_or_else(|| config::features_of(t.lean)),
     };
     if let Some(i) = t.imp {
         if let Some((tr_name, x)) = i.split_once(" for ") {
@@ -573,6 +575,10 @@ fn main() {
     let mut root: Option<String> = None;
     let mut module = "Src".to_string();
     let mut out_dir: Option<String> = None;
+    // `--features a,b --ns F0`: translate the sources as cargo compiles them with exactly these features of the impl crates
+    // (cfg resolved first, `cfgres.rs`), into namespace `UL.Src<ns>` (files `<out-dir>/<ns>/<Module>.lean`); used for C20
+    let mut cfg_features: Option<Vec<String>> = None;
+    let mut ns: Option<String> = None;
     let mut i = 0;
     while i < args.len() {
         match args[i].as_str() {
@@ -583,6 +589,14 @@ fn main() {
             "--out-dir" => {
                 i += 1;
                 out_dir = args.get(i).cloned();
+            }
+            "--features" => {
+                i += 1;
+                cfg_features = Some(args.get(i).cloned().unwrap_or_default().split(',').filter(|x| !x.is_empty()).map(|x| x.to_string()).collect());
+            }
+            "--ns" => {
+                i += 1;
+                ns = args.get(i).cloned();
             }
             "-h" | "--help" => {
                 println!("usage: srclean <repo-root> [--module Src|SrcMatch|SrcExtType] [--out-dir DIR]");
@@ -603,14 +617,25 @@ fn main() {
         eprintln!("unknown module `{}`", module);
         std::process::exit(2);
     }
-    let reg = Registry::load(std::path::Path::new(&root));
+    if cfg_features.is_some() != ns.is_some() {
+        eprintln!("--features and --ns go together");
+        std::process::exit(2);
+    }
+    let reg = Registry::load(std::path::Path::new(&root), cfg_features.as_deref());
 
     let mut done: BTreeMap<String, FnSig> = BTreeMap::new();
     let mut failed: BTreeMap<String, String> = BTreeMap::new();
     let mut outcomes: Vec<(&Target, Outcome)> = Vec::new();
     for t in TARGETS {
+        if let Some(fs) = &cfg_features {
+            // one translation of `character_direction` per configuration: the one whose type fits
+            let likely = fs.iter().any(|f| f == "likelysubtags");
+            if (t.lean == "LangId.directionNoLikely" && likely) || (t.lean == "LangId.direction" && !likely) {
+                continue;
+            }
+        }
         let m = MODULES.iter().find(|m| m.name == t.module).expect("module of target");
-        let (o, sig) = translate_one(&reg, m, t, &done, &failed);
+        let (o, sig) = translate_one(&reg, m, t, &done, &failed, &cfg_features);
         match sig {
             Some(s) => {
                 done.insert(t.lean.to_string(), s);
@@ -629,14 +654,27 @@ fn main() {
         s.push_str("  One definition per target item, saying what the source text says, in the vocabulary of\n");
         s.push_str("  `UnicLocale/Model/Basic.lean`.  `UnicLocale/SrcTie/*.lean` proves each equal to the model.\n-/\n");
         for imp in m.imports {
-            s.push_str(&format!("import {}\n", imp));
+            match (&ns, imp.strip_prefix("UnicLocale.Gen.")) {
+                (Some(n), Some(rest)) => s.push_str(&format!("import UnicLocale.Gen.{}.{}\n", n, rest)),
+                _ => s.push_str(&format!("import {}\n", imp)),
+            }
+        }
+        if ns.is_some() {
+            // the library contracts (`idx`, `okOr`, `tblSearch1`, ..) are those of the default modules
+            s.push_str("import UnicLocale.Gen.Src\n");
+            if m.name == "SrcLikely" {
+                s.push_str("import UnicLocale.Gen.SrcLikely\n");
+            }
         }
         s.push_str("\nset_option linter.unusedVariables false\n\nnamespace UL.Src\n\n");
-        if m.prelude {
+        if ns.is_some() {
+            s.push_str("open UL.Src\n\n");
+        }
+        if m.prelude && ns.is_none() {
             s.push_str(PRELUDE);
             s.push('\n');
         }
-        if m.name == "SrcLikely" {
+        if m.name == "SrcLikely" && ns.is_none() {
             s.push_str(LIKELY_PRELUDE);
             s.push('\n');
         }
@@ -647,11 +685,26 @@ fn main() {
             }
         }
         s.push_str("end UL.Src\n");
+        if let Some(n) = &ns {
+            // every target (and its loops) lives in `UL.Src<ns>`; the contracts stay in `UL.Src` (opened above)
+            s = s.replace("UL.Src.", &format!("UL.Src{}.", n));
+            s = s.replace("namespace UL.Src\n", &format!("namespace UL.Src{}\n", n));
+            s = s.replace("end UL.Src\n", &format!("end UL.Src{}\n", n));
+            s = s.replace(&format!("open UL.Src{}\n", n), "open UL.Src\n");
+        }
         texts.insert(m.name, s);
     }
     if let Some(d) = &out_dir {
+        let d = match &ns {
+            Some(n) => {
+                let p = std::path::Path::new(d).join(n);
+                let _ = std::fs::create_dir_all(&p);
+                p.to_string_lossy().to_string()
+            }
+            None => d.clone(),
+        };
         for (name, text) in &texts {
-            let p = std::path::Path::new(d).join(format!("{}.lean", name));
+            let p = std::path::Path::new(&d).join(format!("{}.lean", name));
             if let Err(e) = std::fs::write(&p, text) {
                 eprintln!("cannot write {}: {}", p.display(), e);
                 std::process::exit(1);
@@ -670,7 +723,7 @@ fn main() {
         js.push_str(&format!(
             "{}: {{\"status\": {}, \"reason\": {}, \"rust\": {}, \"sha\": {}, \"module\": {}, \"group\": {}, \"model\": {}, \"arity\": {}}}",
             json_str(t.lean),
-            json_str(if o.ok { "ok" } else { "unsupported" }),
+            json_str(if o.ok { "ok" } else if ns.is_some() && o.reason.contains("not found in") { "absent" } else { "unsupported" }),
             json_str(&o.reason),
             json_str(&o.rust),
             json_str(&o.sha),
@@ -680,6 +733,73 @@ fn main() {
             t.model_type.matches('→').count()
         ));
     }
-    js.push_str("}}");
+    js.push_str("}, \"types\": {");
+    // what the derived / hand-written trait impls of the modelled types are in this configuration (the model takes
+    // `PartialEq` / `Ord` / `Hash` / `Default` of these types by contract from the `derive` list): the item text of every
+    // configured struct / enum, and the list of `impl Trait for Type` blocks of the parsed files
+    let mut first = true;
+    let mut type_names: Vec<(&str, &str)> = Vec::new();
+    for r in config::RECORDS {
+        type_names.push((r.rust, r.file));
+    }
+    for (n, f) in config::NEWTYPES {
+        type_names.push((n, f));
+    }
+    for e in config::ENUMS {
+        type_names.push((e.rust, e.file));
+    }
+    for (name, file) in type_names {
+        let mut text = String::from("?");
+        if let Ok(f) = reg.file(file) {
+            for it in &f.items {
+                let (ident, toks) = match it {
+                    syn::Item::Struct(x) => (x.ident.to_string(), {
+                        let mut y = x.clone();
+                        y.attrs.retain(|a| !a.path().is_ident("doc"));
+                        norm_tokens(&y)
+                    }),
+                    syn::Item::Enum(x) => (x.ident.to_string(), {
+                        let mut y = x.clone();
+                        y.attrs.retain(|a| !a.path().is_ident("doc"));
+                        for v in y.variants.iter_mut() {
+                            v.attrs.retain(|a| !a.path().is_ident("doc"));
+                        }
+                        norm_tokens(&y)
+                    }),
+                    _ => continue,
+                };
+                if ident == name {
+                    text = toks;
+                }
+            }
+        }
+        if !first {
+            js.push_str(", ");
+        }
+        first = false;
+        // (a trailing comma is not part of what the item says; resolving `cfg` rebuilds the field lists without it)
+        let text = norm_ws(&text.replace(", }", " }").replace(", )", " )"));
+        js.push_str(&format!("{}: {}", json_str(name), json_str(&text)));
+    }
+    js.push_str("}, \"impls\": [");
+    let mut impls: Vec<String> = Vec::new();
+    for (fname, f) in &reg.files {
+        for it in &f.items {
+            if let syn::Item::Impl(im) = it {
+                if let Some((_, p, _)) = &im.trait_ {
+                    let attrs: Vec<String> = im.attrs.iter().filter(|a| !a.path().is_ident("doc")).map(|a| norm_tokens(a)).collect();
+                    impls.push(format!("{}: {} impl {} for {}", fname, attrs.join(" "), norm_tokens(p), norm_tokens(&*im.self_ty)));
+                }
+            }
+        }
+    }
+    impls.sort();
+    for (i, x) in impls.iter().enumerate() {
+        if i > 0 {
+            js.push_str(", ");
+        }
+        js.push_str(&json_str(x));
+    }
+    js.push_str("]}");
     eprintln!("{}", js);
 }
